@@ -166,6 +166,7 @@ class World(DuoWorld):
         self.callee.cursor = len(self.callee.inbox)
         self.caller.cursor = len(self.caller.inbox)
         self.ops_left = 2 + ch.choose(6, "ncalls")
+        self.late_defines_left = ch.choose(3, "n-late-defines", (4, 2, 1))
         self.run.log("cfg", sorted((k, repr(v)) for k, v in cfg.items()))
         self.next_inv = 7000
 
@@ -177,6 +178,7 @@ class World(DuoWorld):
         k = rec.kind
         Dec = decorated_class()
         self.run.log("endpoint", tok, k)
+        rec.expected = self.expected_error(rec)  # under the callee's registry as it is at the moment of the raise
         if k == "app-error":
             raise ApplicationError("com.example.carried.%s" % tok, *a)
         if k == "app-error-kwargs":
@@ -249,7 +251,21 @@ class World(DuoWorld):
             acts.append((3.0, "forward-error", self.forward_error))
         if [r for r in self.interruptible if r.inv_id is not None]:
             acts.append((3.0, "interrupt", self.interrupt))
+        if self.late_defines_left > 0 and self.calls:
+            acts.append((1.0, "late-define", self.late_define))
         return acts
+
+    def late_define(self):
+        """the callee registers (or re-registers) an exception class while the session is in use - possibly after an
+        exception of that class has already gone through the session"""
+        ch = self.run.ch
+        self.late_defines_left -= 1
+        cls, uri = ch.pick(((UndefinedError, "com.example.late_defined"), (DefinedError, "com.example.redefined"),
+                            (UndefinedError, "com.example.late_defined_again")), "late-define")
+        self.run.fault("late-define")
+        self.run.log("app", "callee.define", cls.__name__, uri)
+        self.callee.session.define(cls, uri)
+        self.callee_map[cls] = uri
 
     def interrupt(self):
         """the dealer cancels an invocation in flight"""
@@ -323,7 +339,7 @@ class World(DuoWorld):
         if not isinstance(msg, M.Error):
             self.run.violate("C18.uri-args-kwargs", "no-ERROR-for-raising-endpoint:%s" % type(msg).__name__, rec.tok)
             return
-        uri, args, kw = self.expected_error(rec)
+        uri, args, kw = getattr(rec, "expected", None) or self.expected_error(rec)
         got_kw = dict(msg.kwargs or {})
         tb = got_kw.pop("traceback", None)
         if self.cfg["traceback"]:
